@@ -1073,6 +1073,14 @@ class KInterp:
                             res += s.cmp_u(c2, 'u' + pred[1:], x, y)   # both msb-flipped: signed order = unsigned order of values
                         elif not fx and not fy and x.hi < (1 << 31) and y.hi < (1 << 31):
                             res += s.cmp_u(c2, 'u' + pred[1:], x, y)
+                        elif fx != fy and isinstance(a, Half) and isinstance(b, Half) and a.j == 1 and b.j == 1:
+                            # high halves, one operand carried as shifted and the other not: the signed order of the two bit
+                            # patterns is the unsigned order of (value of the shifted one) and (value + 2^31 mod 2^32 of the other)
+                            xs = [(c2, KV(x.p, x.lo, x.hi, 0, None, 32))] if fx else s._flip(c2, x, 1 << 31, 32)
+                            for c3, fa in xs:
+                                ys = [(c3, KV(y.p, y.lo, y.hi, 0, None, 32))] if fy else s._flip(c3, y, 1 << 31, 32)
+                                for c4, fb in ys:
+                                    res += s.cmp_u(c4, 'u' + pred[1:], fa, fb)
                         else:
                             # low halves in a 64-bit-lane compare emulation: don't-care, left undetermined
                             res.append((c2, UNK))
@@ -1473,6 +1481,12 @@ def guided_witness(case, extra, check, seed=0, budget=3000):
             derived.add(d[1])
         elif d[0] == 'limbs':
             derived.update(d[2])
+            # the defining equation value = sum limb_i * 2^shift_i, as two inequalities the propagation can use
+            eq = d[1]
+            for sy, (shift, width) in zip(d[2], d[3]):
+                eq = eq - Poly.var(sy) * (1 << shift)
+            cons.append((eq, '>=0'))
+            cons.append((eq - 1, '<0'))
     free = sorted(x for x in case.box if x not in derived)
     nodes = [0]
 
